@@ -7,7 +7,7 @@ ROOT = os.path.dirname(os.path.dirname(os.path.abspath(__file__)))
 
 # id -> (category, technique, level text, level note)
 CHECKS = {
- "C01": ("model_checking", "explicit-state exploration of the proof protocol as a game: bounded adversary, 6 rounds with finite move menus (quick: all vectors with <= 2 dishonest moves + 6 named three-move attacks; thorough: all 2 016 move vectors), every terminal state assembled by an in-harness prover and run on the real StarkProof::verify; plus an exhaustive single-deviation sweep of the dynamic layout's self-declared column / offset parameters through the real check_asserts",
+ "C01": ("model_checking", "explicit-state exploration of the proof protocol as a game: bounded adversary, 6 rounds with finite move menus (quick: all vectors with <= 2 dishonest moves + 6 named three-move attacks; thorough: all 3 024 move vectors), every terminal state assembled by an in-harness prover and run on the real StarkProof::verify; plus an exhaustive single-deviation sweep of the dynamic layout's self-declared column / offset parameters through the real check_asserts",
          "every prover strategy of a finite move menu (configuration re-declarations, decoupled composition values, vector lengths, FRI of an unrelated polynomial, adaptive leaves, forged paths) with a trace that violates the AIR is rejected; states/transitions of the game tree are reported",
          "bounded adversary, one small trace size per layout; hash collision resistance and FRI soundness error are assumptions"),
  "C02": ("exploration", "exhaustive single-deviation sweep (every position x mutation menu, every single-element deletion) of honest proofs on the real verifier",
